@@ -214,9 +214,61 @@ def run_dense(case):
     return out
 
 
+def run_merge(case):
+    """What a real TEBD engine executes: the sequence of evolve_step(U_idx_dt, odd) calls of one or several
+    run() calls (N_steps per call = case['splits']) and, for each U index, the time with which the engine
+    computed that U (argument of _calc_U_bond; delta_t is a power of two, so dividing by it is exact).
+    mode 'static': only the two static methods (larger N), as the engine would iterate over them."""
+    from tenpy.algorithms.tebd import TEBDEngine
+    order = case['order']
+    if case['mode'] == 'static':
+        coeff = [float(x).hex() for x in TEBDEngine.suzuki_trotter_time_steps(order)]
+        trace = [[int(a), int(b)] for a, b in TEBDEngine.suzuki_trotter_decomposition(order, case['splits'][0])]
+        return {'coeff': coeff, 'delta_t': (1.0).hex(), 'trace': trace, 'evolved': None}
+    M = make_model(case['model'], case['engine'].startswith('TimeDependent'))
+    psi = make_psi(M, case['state'])
+    delta_t = 2.0 ** -case['dt_exp']
+    opts = {'order': order, 'dt': delta_t, 'N_steps': 1, 'trunc_params': {'chi_max': 4, 'svd_min': 1e-12},
+            'max_trunc_err': None}
+    eng = get_engine_class(case['engine'])(psi, M, opts)
+    L = int(psi.L)
+    calls = []
+    orig_calc = eng._calc_U_bond
+
+    def calc(i_bond, dt, *args, **kw):
+        calls.append([int(i_bond), float(dt)])
+        return orig_calc(i_bond, dt, *args, **kw)
+    eng._calc_U_bond = calc
+    trace = []
+    orig_step = eng.evolve_step
+
+    def step(U_idx_dt, odd):
+        trace.append([int(U_idx_dt), int(odd)])
+        return orig_step(U_idx_dt, odd)
+    eng.evolve_step = step
+    for n in case['splits']:
+        eng.options['N_steps'] = n
+        if case.get('direct_run_evolution'):
+            eng.run_evolution(n, delta_t)
+        else:
+            eng.run()
+    n_ts = len(eng._U)
+    if len(calls) % L != 0 or len(calls) < n_ts * L:
+        raise ValueError('unexpected number of _calc_U_bond calls: %d for L=%d, %d time steps' % (len(calls), L, n_ts))
+    last = calls[len(calls) - n_ts * L:]
+    coeff = []
+    for j in range(n_ts):
+        grp = last[j * L:(j + 1) * L]
+        if [g[0] for g in grp] != list(range(L)) or len(set(g[1] for g in grp)) != 1:
+            raise ValueError('unexpected _calc_U_bond call pattern %r' % (grp,))
+        coeff.append(grp[0][1].hex())
+    return {'coeff': coeff, 'delta_t': delta_t.hex(), 'trace': trace,
+            'evolved': float(complex(eng.evolved_time).real).hex()}
+
+
 def main():
     payload = json.load(open(sys.argv[1]))
-    f = {'schedule': run_schedule, 'accounting': run_accounting, 'coverage': run_coverage, 'dense': run_dense}[payload['kind']]
+    f = {'schedule': run_schedule, 'accounting': run_accounting, 'coverage': run_coverage, 'dense': run_dense, 'merge': run_merge}[payload['kind']]
     res = []
     for c in payload['cases']:
         try:
